@@ -11,7 +11,7 @@ fn kv_sqrt32_spy(x: f32) -> f32 {
 	kv_sqrt32(x)
 }
 
-// @h prop=C19 tier=quick kind=main
+// @h prop=C19,C01 tier=quick kind=main
 // @bounds every f32 bit pattern of the panning value (incl. NaN, +-inf, -0.0); every finite frame
 // @funcs Frame::panned
 // @assume f32::sqrt replaced by a recording contract stub (sqrt(0)=0, sqrt(1)=1, monotone, in [x,1) for x<1)
